@@ -372,9 +372,15 @@ def translate_dispatch(tree: ast.Module) -> list[tuple[str, str | Untranslatable
     try:
         fn = fns["estimate_loc"]
         arms = []
-        for s in fn.body:
-            if isinstance(s, ast.If) and isinstance(s.test, ast.Compare) and ast.unparse(s.test.left) == "method" \
-                    and isinstance(s.body[0], ast.Return):
+        chain = []
+        for s0 in fn.body:                      # `if … return` sequences and `if / elif / else` chains alike
+            node = s0
+            while isinstance(node, ast.If):
+                chain.append(node)
+                node = node.orelse[0] if len(node.orelse) == 1 and isinstance(node.orelse[0], ast.If) else None
+        for s in chain:
+            if isinstance(s.test, ast.Compare) and ast.unparse(s.test.left) == "method" \
+                    and len(s.body) == 1 and isinstance(s.body[0], (ast.Return, ast.Assign)):
                 r = ast.unparse(s.body[0].value).replace(" ", "")
                 m = s.test.comparators[0].value
                 if r == "np.mean(data,axis=axis,keepdims=keepdims,dtype=np.float64)":
@@ -389,6 +395,18 @@ def translate_dispatch(tree: ast.Module) -> list[tuple[str, str | Untranslatable
         out.append(("loc_dispatch", e if isinstance(e, Untranslatable) else Untranslatable("estimate_loc not found")))
     try:
         fn = fns["estimate_zscore"]
+        srcs = [ast.unparse(s).replace(" ", "") for s in fn.body
+                if not (isinstance(s, ast.Expr) and isinstance(s.value, ast.Constant))]
+        def if_to_ifexp(st):
+            """`if c: x = a else: x = b` is `x = a if c else b`"""
+            if isinstance(st, ast.If) and len(st.body) == 1 and len(st.orelse) == 1 \
+                    and all(isinstance(x, ast.Assign) and isinstance(x.targets[0], ast.Name) for x in (st.body[0], st.orelse[0])) \
+                    and st.body[0].targets[0].id == st.orelse[0].targets[0].id:
+                return ast.Assign(targets=[st.body[0].targets[0]],
+                                  value=ast.IfExp(test=st.test, body=st.body[0].value, orelse=st.orelse[0].value))
+            return st
+        fn = ast.fix_missing_locations(ast.FunctionDef(name=fn.name, args=fn.args, body=[if_to_ifexp(x) for x in fn.body],
+                                                        decorator_list=[], returns=None, type_comment=None, type_params=[]))
         srcs = [ast.unparse(s).replace(" ", "") for s in fn.body
                 if not (isinstance(s, ast.Expr) and isinstance(s.value, ast.Constant))]
         loc_ok = any("np.zeros(1,dtype=data.dtype)ifloc_method=='norm'elseestimate_loc(data,loc_method,axis,keepdims=True)" in x for x in srcs)
@@ -434,14 +452,15 @@ def translate_along_axes(utils_tree: ast.Module) -> str:
     fn = next((n for n in utils_tree.body if isinstance(n, ast.FunctionDef) and n.name == "apply_along_axes"), None)
     if fn is None:
         raise Untranslatable("apply_along_axes not found")
+    import normalize
+    fn = normalize.inline_temps(fn, extra_pure=frozenset({"np.moveaxis", "range", "len", "tuple", ".reshape"}))
     srcs = [ast.unparse(s).replace(" ", "") for s in fn.body
             if not (isinstance(s, ast.Expr) and isinstance(s.value, ast.Constant))]
     want = ["ifaxisisNone:\nreturnfunc(data.ravel())",
             "ifisinstance(axis,int):\naxis=(axis,)",
             "axis=tuple((ax%data.ndimforaxinaxis))",
-            "moved_data=np.moveaxis(data,axis,range(len(axis)))",
-            "reshaped_data=moved_data.reshape(-1,*moved_data.shape[len(axis):])",
-            "returnnp.apply_along_axis(func,axis=0,arr=reshaped_data)"]
+            "returnnp.apply_along_axis(func,axis=0,arr=np.moveaxis(data,axis,range(len(axis))).reshape(-1,"
+            "*np.moveaxis(data,axis,range(len(axis))).shape[len(axis):]))"]
     got = [x.replace("\n    ", "\n") for x in srcs]
     if got != want:
         diff = next((g for g, w in zip(got, want) if g != w), got[-1] if got else "")
